@@ -198,6 +198,16 @@ def run(ctx):
             if not same:
                 if not appended:
                     bad = bad or "new block but the latest snapshot is overwritten"
+                # appending means: the counter becomes the loaded counter + 1 and the snapshot is stored under that index
+                for wr in ix.writes_on_path(p):
+                    if wr["item"] == CNT and wr["kind"] == "write" and wr["value"] is not None:
+                        nv_ = N(ix, wr["value"])
+                        okc = isinstance(nv_, tuple) and nv_[0] == "add" and ("int", 1) in nv_[1:] and \
+                            any(isinstance(t_, tuple) and t_[0] == "leaf" and guards.loaded_item(ix, sym.unwrap(t_[1]) if tag(t_[1]) == "unwrap" else t_[1], VAMM) == CNT or
+                                (isinstance(t_, tuple) and t_[0] == "leaf" and any(guards.loaded_item(ix, x_, VAMM) == CNT for x_ in sym.walk(ix.inline(t_[1]))))
+                                for t_ in nv_[1:])
+                        if not okc:
+                            bad = bad or "an append moves the snapshot counter to %s, not to counter + 1" % norm.show(nv_)[:120]
                 if ix.inline(sym.field(val, "block_height")) != h or ix.inline(sym.field(val, "timestamp")) != tm:
                     bad = bad or "appended snapshot is not stamped with env.block.time / env.block.height"
             qp = [sym.param(sw.key, i, sw.param_name(i)) for i in range(sw.arg_count) if sw.locals[i + 1]["ty"].endswith("Uint128")]
@@ -311,6 +321,30 @@ def run(ctx):
             if not guards.path_satisfies(ix, q, strict_guard, pa.m):
                 bad = bad or "a success path does not establish num_round_back < latest.round_id (going back exactly round_id rounds returns the placeholder round 0 that nobody submitted)"
         ctx.inst("R18.3", "previous-stays-within-submitted", bad is None and bool(oks), pa.fn.where(), bad or "%d success paths, each with num_round_back < latest.round_id" % len(oks))
+        # ... and goes back EXACTLY that many rounds: where the answer is reached by popping the newest rounds off a copy
+        # of the list, a path that popped k times has established j < n for every j < k and NOT k < n, i.e. n == k
+        # (blind sweep: `while i <= n` returned the round before the one asked for)
+        popped_any = False
+        badk = None
+        n_chk = 0
+        for q in oks:
+            k_pops = sum(1 for e in q.events if e.name.endswith("::pop") and "Vec" in e.name)
+            if k_pops:
+                popped_any = True
+        if popped_any:
+            for q in oks:
+                k_pops = sum(1 for e in q.events if e.name.endswith("::pop") and "Vec" in e.name)
+                cmps = {}
+                for (at, o, _b, _l) in q.conds:
+                    ai = ix.inline(pa.c(at))
+                    if tag(ai) == "op" and payload(ai)[0] == "lt" and len(kids(ai)) == 2 and tag(kids(ai)[0]) == "int" and ix.inline(kids(ai)[1]) == n_v and o in (True, False):
+                        cmps[int(payload(kids(ai)[0])[0])] = o
+                n_chk += 1
+                want = {j: True for j in range(k_pops)}
+                want[k_pops] = False
+                if cmps != want:
+                    badk = badk or "a path that pops %d round(s) has the loop tests %s on num_round_back, not j < n for j < %d and not %d < n" % (k_pops, sorted(cmps.items()), k_pops, k_pops)
+            ctx.inst("R18.3", "previous-exactly-n-back", badk is None and n_chk > 0, pa.fn.where(), badk or "%d success paths: k pops <=> num_round_back == k" % n_chk)
     except KeyError as e:
         ctx.lost("R18.3", str(e))
 
@@ -368,6 +402,7 @@ def run(ctx):
             # what the path knows about the interval and the length of the history
             interval_zero = None
             justified = False
+            exhausted = False
             for (at, o, _b, _l) in p.conds:
                 ai = ix.inline(at)
                 if tag(ai) == "op" and payload(ai)[0] in ("eq", "ne") and len(kids(ai)) == 2 and o in (True, False):
@@ -377,6 +412,8 @@ def run(ctx):
                         interval_zero = is_eq
                     if is_eq and any(tag(k) == "int" and payload(k)[0] == "1" for k in ks) and interval not in ks:
                         justified = True     # a single snapshot / the first round: nothing to average
+                    if is_eq and any(tag(k) == "int" and str(payload(k)[0]) in ("0", "1") for k in ks) and interval not in ks:
+                        exhausted = True     # the walk reached the first stored observation (index 0 / round 1)
                 if tag(ai) == "op" and payload(ai)[0] in ("le", "lt", "ge", "gt") and o in (True, False) and len(kids(ai)) == 2:
                     # the latest observation is not younger than the start of the window (now - interval)
                     sh = sym.show(ai, 6)
@@ -431,6 +468,10 @@ def run(ctx):
                 bad = bad or "divisor %s is not linear in timestamps" % norm.show(den)
                 continue
             ld = {k: c for k, c in ld.items() if c}
+            if ld != {"interval": 1} and not exhausted:
+                # dividing by the covered period instead of the interval is the short-history answer: only where the
+                # path has established that the history is exhausted
+                bad = bad or "the average is taken over the covered period (not the interval) on a path that has not reached the first observation"
             if total != ld:
                 bad = bad or "weights sum to %s but the divisor is %s" % ({(sym.show(k, 3) if isinstance(k, int) else k): c for k, c in total.items()},
                                                                          {(sym.show(k, 3) if isinstance(k, int) else k): c for k, c in ld.items()})
